@@ -1062,11 +1062,15 @@ def r04j(rep, F):
                         for y in [f.strip(cid) for cid in (blk['ch'] if blk['k'] == 'CompoundStmt' else [blk['id']])]):
                     continue        # the declaring block only nominates partners
                 n += 1
-                ok = bool(partners & set(tg))
+                # companions that are nodes / paths take precedence: a flag only stands in when the cost has no node companion
+                strong = {p_ for p_ in partners if not any(ty2.replace('const ', '').strip() in ('bool', '_Bool')
+                                                            for _, t2 in blocks for k2, ty2 in t2.items() if k2 == p_)}
+                need = strong or partners
+                ok = bool(need & set(tg))
                 rep.add('R04j', f.name, 'cost-with-item[%s]#%d' % (nofp(c), f.line(blk)), ok, f.where(blk),
-                        '%s assigned together with %s' % (nofp(c), ', '.join(sorted(nofp(p) for p in partners & set(tg)))) if ok else
+                        '%s assigned together with %s' % (nofp(c), ', '.join(sorted(nofp(p) for p in need & set(tg)))) if ok else
                         '%s is assigned in this block without %s, which accompanies it in the other %d blocks: the reported node and the reported '
-                        'cost come apart' % (nofp(c), ' / '.join(sorted(nofp(p) for p in partners)), len([1 for _, t2 in blocks if c in t2]) - 1))
+                        'cost come apart' % (nofp(c), ' / '.join(sorted(nofp(p) for p in need)), len([1 for _, t2 in blocks if c in t2]) - 1))
     rep.require_count('R04j', 'cost updates paired with their item', n, 8)
 
 
